@@ -124,3 +124,11 @@ Theorem C04_decode_depends_only_on_code :
     end.
 Proof. exact decode_depends_only_on_code. Qed.
 Print Assumptions C04_decode_depends_only_on_code.
+
+(* the model's dispatch has arms only for opcodes the source's dispatch `match` names (patterns translated from cpu.rs
+   on every run): any other opcode is an illegal opcode in the model *)
+From Dmd Require Import Proofs.DispatchTie.
+Theorem C04_model_dispatch_within_source_arms :
+  forall ir m, ~ In (iopcode ir) source_arm_opcodes -> exec ir m = Err (EExc IllegalOpcode) m.
+Proof. exact exec_illegal_outside_source_arms. Qed.
+Print Assumptions C04_model_dispatch_within_source_arms.
